@@ -23,7 +23,7 @@ CLAIMED = {
          "The global 'exactly once' follows from the deltas by a counting lemma that is argued on paper, not machine checked. DecRef (close only at zero, only its own file, parent dropped only at zero), TryIncRef (never resurrects) and removeWithName's pin/unpin are verified against their bodies; inside DecRef 'the file of a live reference is still open and owned by it' is presumed (listed). connState.stop is not under contract. Schedules: atomics treated as sequential. Panic exits are not claimed for reference balance.",
          "4-C05"),
  "C06": ("Proof of the structural half: handleRequest sends at most one reply, exactly one per handled request, with the request's tag, under sendMu, after StartTag succeeded, never while holding the receive token and only after a receiver exists; connState.handle always returns a reply whose type is the request's R-type or Rlerror (all 33 handlers verified against the handler interface contract), ENOSYS for non-requests, EFAULT on panic; tags untouched by handlers.",
-         "NOT decided by exploration: the scheduling half; what is proved towards it: no backend call is made with the global lock write-held outside rename/remove, no mutex is held at a blocking channel receive, hand-off before handling. Known finding F5 (Tflush of its own tag); F13 (rename/teardown self-deadlock) fixed.",
+         "NOT decided by exploration: the scheduling half; what is proved towards it: no backend call is made with the global lock write-held outside rename/remove, no mutex is held at a blocking channel receive, hand-off before handling. F5 (Tflush of its own tag) and F13 (rename/teardown self-deadlock) fixed.",
          "4-C06"),
  "C07": ("Proof of the lock discipline: the lock class of every File method is a precondition on the interface method (read/write/global class over ghost hold counts of renameMu and the path node of the fidRef the receiver was loaded from), checked at every backend call site of every handler; safelyRead/Write/Global are proved against higher-order wrapper contracts; unlink's child-node lock; guarded-by obligations for fidRef.opened/openFlags.",
          "Mutual exclusion of sync.RWMutex is trusted; exclusion is derived from lock sets, not explored over schedules. Files not yet stored in a fidRef are private to the invocation. Known findings F9, F10 (known_findings.txt).",
@@ -47,7 +47,7 @@ CLAIMED = {
          "Client payloadSize derivation is verified in NewClient. msize < 11 cannot admit any reply frame and is excluded (precondition). The read-buffer pool's New closure is verified to make msize-byte buffers; that Get returns such a buffer is assumed at the call site (Tversion not pipelined).",
          "4-C13"),
  "C14": ("Proof of ordering obligations: Rflush is constructed only after WaitTag(OldTag) returned; WaitTag returns at once for an idle tag and otherwise only after a receive on the tag's channel, which only ClearTag closes; ClearTag is called exactly once, after the handler returned and before the reply is sent; tflush.handle has no other effect.",
-         "Channel close/receive semantics trusted. Known finding F5: OldTag equal to the flush's own tag violates WaitTag's precondition.",
+         "Channel close/receive semantics trusted. F5 (OldTag equal to the flush's own tag) fixed: such a flush is answered directly and the handler is proved never to wait for the request's own tag.",
          "4-C14"),
  "C15": ("Proof: every backend call site has an error outcome and a panic outcome; handlers' replies on backend error are Rlerror(errno(err)); lock balance on normal and panic exits of every handler and of the lock wrappers (deferred unlocks); fid table unchanged on error (clunk/remove still unbind); references balanced and obtained Files closed on error paths.",
          "connState.handle's recover (EFAULT reply) is verified. Go runtime panics raised asynchronously are out of scope.",
